@@ -506,6 +506,10 @@ class Reader:
                         self.tok.get_eol()
                     elif c == "$ORIGIN":
                         self.current_origin = self.tok.get_name(self.current_origin)
+                        if not self.current_origin.is_absolute():
+                            raise dns.exception.SyntaxError(
+                                "relative $ORIGIN with no origin to complete it"
+                            )
                         self.tok.get_eol()
                         if self.zone_origin is None:
                             self.zone_origin = self.current_origin
